@@ -66,4 +66,8 @@ def run(prog: Program, col: Collector, tier: str, refs: Optional[Refs] = None, c
     _algebra.r_split_reduced_vars_accounted(prog, col, refs, cat, "R02.28")
     from . import algebra as _algebra2
     _algebra2.r_guarded_reduce_has_alternative(prog, col, refs, cat, "R02.29")
+    from . import algebra as _alg3, c15 as _c15
+    _alg3.r_units_and_distributive_tables(prog, col, refs, cat, "R02.30", "R02.31")
+    col.rule("R02.32", "mixed scalar/array registrations of a commutative op are mirror images (naive evaluation of op(constant, tensor) runs them)", floor=6)
+    _c15._mirror(prog, col, refs, cat)
     return col
